@@ -39,6 +39,13 @@ type apiStats struct {
 	} `json:"users"`
 }
 
+// statsSource is where a server's statistics are read from: the management API of a running
+// instance (*tcpsvc.Instance) or, for a relay assembled around a harness-owned outbound client,
+// the collector's snapshot in the API's JSON form.
+type statsSource interface {
+	APIGet(path string) (int, []byte, error)
+}
+
 // want is the ledger row of one accounting subject (a user, or the anonymous remainder).
 // Byte counts are intervals: exact for orderly sessions, [received by the far harness side,
 // written by the near harness side] for sessions ended by a reset or hidden failures.
@@ -87,7 +94,7 @@ func sub(a, b apiTraffic) apiTraffic {
 // hands the session to the collector before it logs, so once that is true a missing session is
 // final and reported at once instead of after the liveness bound (if the log texts ever change
 // this degrades to the bounded poll).
-func checkServerStats(in *tcpsvc.Instance, name string, users map[string]want, anon want, allEnded func() bool) (string, bool) {
+func checkServerStats(in statsSource, name string, users map[string]want, anon want, allEnded func() bool) (string, bool) {
 	var total uint64 = anon.sessions
 	for _, w := range users {
 		total += w.sessions
